@@ -45,6 +45,9 @@ func TestExamples(t *testing.T) {
 		{"aa:b", seqVal(lit("a"), sE, lit("b"))}, {"aa:e", seqVal(er("aa:x"))}, {"aa:c", seqVal(rf("aa", "c"))},
 		{"aa:p", seqVal(lit("pre-"), rf("aa", "n"))}, {"aa:$x", seqVal(lit("reached"))}, {"aa:empty", seqVal()},
 		{"aa:m", Val{K: "map", Keys: []string{"k0"}, Items: []Val{seqVal(lit("v"), sE)}}},
+		{"aa:m3", Val{K: "map", Keys: []string{"k0", "k1"}, Items: []Val{seqVal(rf("aa", "n")),
+			{K: "list", Items: []Val{seqVal(rf("aa", "empty")), seqVal(lit("p"), rf("aa", "n"))}}}}},
+		{"aa:m4", Val{K: "map", Keys: []string{"k0", "k1"}, Items: []Val{seqVal(rf("aa", "n")), seqVal(rf("aa", "empty"))}}},
 		{"aa:m2", Val{K: "map", Keys: []string{"k0", "k1"}, Items: []Val{seqVal(rf("aa", "x"), rf("aa", "x")), seqVal(lit("a"), er("aa:x"))}}},
 	}
 	nested := Seg{K: "ref", Scheme: "aa", Name: []Seg{rf("aa", "k")}}
@@ -80,6 +83,11 @@ func TestExamples(t *testing.T) {
 			typed: "${aa:empty}-${aa:x}", str: "${aa:empty}-${aa:x}"},
 		{name: "map value whose text has the same reference escaped", field: "s1", seq: []Seg{rf("aa", "m2")},
 			typed: map[string]any{"k0": "XX", "k1": "a${aa:x}"}, str: `{k0: "XX", k1: "a${aa:x}"}`},
+		// repaired findings nested-expanded-value/leak and /panic
+		{name: "nested whole-value references are typed at every depth", field: "m", seq: []Seg{rf("aa", "m3")},
+			typed: map[string]any{"k0": 83, "k1": []any{nil, "p0123"}}},
+		{name: "…and arrive as their original text in map[string]string", field: "ms", seq: []Seg{rf("aa", "m4")},
+			typed: map[string]any{"k0": 83, "k1": nil}},
 		{name: "cycle", field: "s1", seq: []Seg{rf("aa", "c")}, wantErr: true},
 		{name: "embedded cycle", field: "s1", seq: []Seg{lit("a"), rf("aa", "c")}, wantErr: true},
 		{name: "$ in name", field: "s1", seq: []Seg{dollar}, wantErr: true},
